@@ -154,18 +154,20 @@ Proof.
   - destruct (get_ku_nth E h i a G) as [N _]. exact (C16_no_remembered_shape history i a N).
 Qed.
 
+(* copy(order=o), for EVERY memory order o in 'C','F','A','K': a fresh array with the operand's own shape
+   whose element at every index is +element (the order argument only selects the layout) *)
 Theorem C16_copy :
-  forall (history : list (op E)) i a,
+  forall (history : list (op E)) (o : morder) i a,
     let h := fst (run [] history) in
     get_ku E h i = Some a ->
-    match snd (step h (OCopy i)) with
+    match snd (step h (OCopy o i)) with
     | XArr k s cells => k = KU /\ s = a_shape E a /\ length cells = size s /\
         forall idx, valid s idx -> un F_POS (nth (flat s idx) (a_cells E a) none) = Ok (nth (flat s idx) cells none)
     | XExn e => exists idx, valid (a_shape E a) idx /\ un F_POS (nth (flat (a_shape E a) idx) (a_cells E a) none) = Err e
     | XLbl _ => False
     end.
 Proof.
-  intros history i a h G. simpl.
+  intros history o i a h G. simpl.
   apply (un_clean E none un h KU F_POS i (label_of E) a (a_label E a)); auto.
   - apply run_wf. constructor.
   - destruct (get_ku_nth E h i a G) as [N _]. exact (C16_no_remembered_shape history i a N).
@@ -239,6 +241,22 @@ Proof.
   rewrite P1. simpl. unfold get_ku. rewrite nth_error_app2 by lia. rewrite Nat.sub_diag. reflexivity.
 Qed.
 
+(* (7) operands that are NumPy views or re-laid-out copies (a.T, np.transpose, np.swapaxes, a[::-1],
+   strided slices, Fortran order, np.broadcast_to): the new object has the requested shape, the kind and
+   label of its source and, at every flat logical position k, the source element m[k] that NumPy's index
+   map designates -- nothing else (no memory layout) exists in the model, and since [history] in (2)-(6)
+   ranges over ALL operation sequences, views included, every array operation applied to such an operand
+   is the lifting over its LOGICAL elements. *)
+Theorem C16_view :
+  forall (history : list (op E)) i a s m,
+    let h := fst (run [] history) in
+    nth_error h i = Some a -> length m = size s -> (forall j, In j m -> j < length (a_cells E a)) ->
+    exists cells,
+      step h (OView i s m) = (h ++ [fresh E (a_kind E a) s cells (a_label E a)], XArr (a_kind E a) s cells) /\
+      length cells = size s /\
+      forall k, k < size s -> nth k cells none = nth (nth k m 0) (a_cells E a) none.
+Proof. intros history i a s m h N L B. exact (view_gather E none un bin ilabel h i a s m N L B). Qed.
+
 End C16.
 
 Print Assumptions C16_broadcast_index.
@@ -254,6 +272,7 @@ Print Assumptions C16_result.
 Print Assumptions C16_zip_on.
 Print Assumptions C16_history_independent.
 Print Assumptions C16_pickle_roundtrip.
+Print Assumptions C16_view.
 
 (* ------------------------------------------------------------------ a concrete instance: witnesses and non-vacuity *)
 Definition wun (f e : Z) : res Z := if Z.eqb e 0 then Err TypeError else Ok (f * 1000 + e)%Z.
@@ -285,7 +304,7 @@ Example C16_history_independent_example :
   heap_ceq Z (fst (wrun [] hist1)) (fst (wrun [] hist2)) /\
   snd (wstep (fst (wrun [] hist1)) (OUn 33%Z 0)) = XArr KU [3; 1] [33001; 33002; 33003]%Z /\
   snd (wstep (fst (wrun [] hist2)) (OUn 33%Z 0)) = XArr KU [3; 1] [33001; 33002; 33003]%Z /\
-  snd (wstep (fst (wrun [] hist1)) (OCopy 0)) = XArr KU [3; 1] [1001; 1002; 1003]%Z /\
+  snd (wstep (fst (wrun [] hist1)) (OCopy OrdC 0)) = XArr KU [3; 1] [1001; 1002; 1003]%Z /\
   snd (wstep (fst (wrun [] hist1)) (OZip 71%Z 1 (OA 1))) = XArr KU [3] [404; 505; 606]%Z.
 Proof.
   split; [vm_compute; repeat constructor|]. vm_compute. repeat split; reflexivity.
@@ -311,6 +330,18 @@ Example C16_pickle_example :
   snd (wstep h (OUn 33%Z 0)) = XArr KU [2] [33001; 33002]%Z /\
   snd (wstep h (OUn 33%Z 1)) = XArr KU [2] [33001; 33002]%Z /\
   snd (wstep h (OLabel 0)) = XLbl 5%Z /\ snd (wstep h (OLabel 1)) = XLbl 0%Z.
+Proof. vm_compute. repeat split; reflexivity. Qed.
+
+(* non-vacuity of (7): a(2,3).T, then a unary function, a binary ufunc with the C-ordered original of the
+   transposed shape, and copy(): all over the logical elements of the view (a.T[i,j] = a[j,i]) *)
+Example C16_view_example :
+  let h := fst (wrun [] [ONew KU [2; 3] [1; 2; 3; 4; 5; 6]%Z 9%Z; OView 0 [3; 2] [0; 3; 1; 4; 2; 5];
+                         ONew KU [3; 2] [11; 12; 13; 14; 15; 16]%Z 0%Z]) in
+  snd (wstep h (OUn 33%Z 1)) = XArr KU [3; 2] [33001; 33004; 33002; 33005; 33003; 33006]%Z /\
+  snd (wstep h (OCopy OrdF 1)) = XArr KU [3; 2] [1001; 1004; 1002; 1005; 1003; 1006]%Z /\
+  snd (wstep h (OCopy OrdK 0)) = XArr KU [2; 3] [1001; 1002; 1003; 1004; 1005; 1006]%Z /\
+  snd (wstep h (OBin BGen 51%Z (OA 1) (OA 2))) = XArr KU [3; 2] [111; 412; 213; 514; 315; 616]%Z /\
+  snd (wstep h (OLabel 1)) = XLbl 9%Z.
 Proof. vm_compute. repeat split; reflexivity. Qed.
 
 (* STILL REFUTED (known finding C16-zip-no-broadcast): sensitivity / u_component / core.atan2 do not
